@@ -11,7 +11,10 @@
   never set by the cases).  `compose_directive` groups the composable directives by URL through a
   `HashMap<&str, Vec<String>>` and writes the groups in the map's iteration order, which differs
   from call to call: `exportSdlG` takes the order of the groups as a parameter (`exportSdl` = the
-  order of first appearance); every statement about it is for any permutation.
+  order of first appearance); every statement about it is for any permutation.  The query root of
+  a federation export is prepared by `fedRoot` (machinery fields removed, an empty root dropped)
+  before the printers run; the subscription root's federation rule is not modelled (no
+  subscription roots in the cases).
 
   Defect toggles (true = behaviour of the pinned tree):
     reasonQuoteRaw            `escape_string` has no arm for `"`
